@@ -3,6 +3,8 @@ package worker
 import (
 	"bytes"
 	"context"
+	"sync/atomic"
+	"time"
 	"encoding/json"
 	"fmt"
 	"io"
@@ -304,10 +306,15 @@ var decodeOps = map[string]bool{"unmarshal": true, "unmarshal_ctx": true, "unmar
 func (ss *sessState) runStep(i int) {
 	st := &ss.s.Steps[i]
 	if !verifsim.Active() {
-		CurrentStep = fmt.Sprintf("session %s step %d (%s %s)", ss.s.ID, i, st.Op, st.T)
+		beginStep(fmt.Sprintf("session %s step %d (%s %s)", ss.s.ID, i, st.Op, st.T))
+	} else {
+		atomic.StoreInt64(&stepStart, time.Now().UnixNano())
 	}
 	verifsim.Yield(seamStep)
 	obs := ss.doStep(i, st)
+	if !verifsim.Active() {
+		endStep()
+	}
 	ss.obs = append(ss.obs, obs)
 	if st.Bomb != nil || len(st.Doc) > 1<<20 || (st.Reader != nil && (st.Reader.Bomb != nil || len(st.Reader.Data) > 1<<20)) {
 		// the collector is off between plan events; after a step on a huge
